@@ -31,6 +31,26 @@ example : selfCheckInputStopsV1 = true := by decide
 example : refuseBranchStops v1SelfCheckInput = true := by decide
 example : refuseBranchStops v1SelfCheckOutput = true := by decide
 
+/-! Colang 1.0: what the two-context model (`Models/PipelineCtx.lean`) assumes about the order of the steps -/
+
+/-- `process bot message`: `$bot_message = $event.text` is the first step after `event BotMessage`, the only assignment of
+    the variable, and precedes `do run output rails` (`outStageE`: `slideSet` first, then `railsE`). -/
+example : setFirstThenCall "bot_message" "$event.text" "run output rails" v1ProcessBotMessage = true := by decide
+/-- `process user input`: `$user_message = $event["final_transcript"]` first, then `do run input rails` (`turnE`). -/
+example : setFirstThenCall "user_message" "$event[\"final_transcript\"]" "run input rails" v1ProcessUserInput = true := by decide
+/-- the rail loops never assign the message variables themselves (`railsE` touches them only through the rails). -/
+example : noSetOf ["user_message", "bot_message"] v1RunInputRails = true := by decide
+example : noSetOf ["user_message", "bot_message"] v1RunOutputRails = true := by decide
+/-- between the rails and `StartUtteranceBotAction(script=$bot_message)` / `UserMessage(text=$user_message)` there are
+    marker events only: what is uttered / handed on is the variable as the rails left it. -/
+example : onlyMarkersBetween "run output rails" "StartUtteranceBotAction" v1ProcessBotMessage = true := by decide
+example : onlyMarkersBetween "run input rails" "UserMessage" v1ProcessUserInput = true := by decide
+/-- the `$skip_output_rails` test comes after the assignment of `$bot_message` (a skipped message is uttered as assigned). -/
+example : (match FlowShape.findIdx? (isSet "bot_message" "$event.text") v1ProcessBotMessage 0,
+                 FlowShape.findIdx? (isIf "$skip_output_rails") v1ProcessBotMessage 0 with
+           | some a, some b => decide (a < b)
+           | _, _ => false) = true := by decide
+
 /-! Colang 2.x (`guardrails.co`) -/
 
 example : userSaidOk v2UserSaid = true := by decide
@@ -64,6 +84,19 @@ example : userSaidOk
     [⟨0, .matchSpec "StartFlow"⟩, ⟨0, .globalVar "$user_message"⟩, ⟨0, .ifE "$text"⟩, ⟨1, .matchSpec "UtteranceUserAction"⟩, ⟨0, .elseE⟩,
      ⟨1, .matchSpec "UtteranceUserAction"⟩, ⟨1, .assign "text" "$event.final_transcript"⟩, ⟨0, .assign "user_message" "$text"⟩,
      ⟨0, .await "run input rails" "$0=$user_message" ""⟩] = false := by decide
+/-- a `process bot message` that runs the output rails BEFORE assigning `$bot_message` (the rails would inspect the
+    previous turn's message) is rejected … -/
+example : setFirstThenCall "bot_message" "$event.text" "run output rails"
+    [.other "meta", .matchEv "BotMessage", .callFlow "run output rails", .setVar "bot_message" "$event.text",
+     .createEvent "StartUtteranceBotAction" "script=$bot_message"] = false := by decide
+/-- … as is one that re-assigns it from the event after the rails (a rewrite would be undone) … -/
+example : onlyMarkersBetween "run output rails" "StartUtteranceBotAction"
+    [.other "meta", .matchEv "BotMessage", .setVar "bot_message" "$event.text", .callFlow "run output rails",
+     .setVar "bot_message" "$event.text", .createEvent "StartUtteranceBotAction" "script=$bot_message"] = false := by decide
+/-- … and a rail loop that resets the message variable on every iteration. -/
+example : noSetOf ["user_message", "bot_message"]
+    [.setVar "i" "0", .whileE "$i < len($output_flows)", .setVar "bot_message" "$event.text", .callFlow "$output_flows[$i]",
+     .setVar "i" "$i + 1", .jump (-4)] = false := by decide
 /-- a rail loop that increments twice is rejected. -/
 example : railLoopOk "input_flows" "$config.rails.input.flows"
     [.setVar "i" "0", .setVar "input_flows" "$config.rails.input.flows", .whileE "$i < len($input_flows)", .callFlow "$input_flows[$i]",
